@@ -253,7 +253,9 @@ class LoopSpec:
     """Invariant for a loop, keyed by (function qualname, loop ordinal)."""
 
     def __init__(self, inv, havoc=None, elem=None, exhausted=None,
-                 decreases=None, name=None):
+                 decreases=None, name=None, on_entry=None, on_break=None):
+        self.on_entry = on_entry  # callable(engine, env, path): snapshots
+        self.on_break = on_break  # callable(engine, env, path) at `break`
         self.inv = inv  # callable(engine, env) -> SBool/bool/z3
         self.havoc = havoc or {}  # var -> callable(engine, env, path)->value
         self.elem = elem  # callable(engine, env, path) -> element (for loops)
@@ -721,7 +723,9 @@ class Engine:
         if is_for:
             itv = self.eval(s.iter, env, mod, clsctx)
             env.vars['__iter__'] = itv
-        p.oblige(f'{nm}/inv-entry', self._spec_inv(spec, env), kind='inv')
+        if spec.on_entry is not None:
+            spec.on_entry(self, env, p)
+        self._oblige_inv(p, f'{nm}/inv-entry', spec, env)
         # havoc
         for var, mk in spec.havoc.items():
             val = mk(self, env, p)
@@ -746,11 +750,12 @@ class Engine:
             try:
                 yield from self.exec_block(s.body, env, mod, clsctx)
             except _Break:
+                if spec.on_break is not None:
+                    spec.on_break(self, env, p)
                 return
             except _Continue:
                 pass
-            p.oblige(f'{nm}/inv-preserved', self._spec_inv(spec, env),
-                     kind='inv')
+            self._oblige_inv(p, f'{nm}/inv-preserved', spec, env)
             if before is not None:
                 after = spec.decreases(self, env)
                 p.oblige(f'{nm}/decreases',
@@ -765,11 +770,31 @@ class Engine:
                     raise PathAbort('loop condition true on exit branch')
             yield from self.exec_block(s.orelse, env, mod, clsctx)
 
+    def _oblige_inv(self, p, name, spec, env):
+        """One obligation per conjunct; a conjunct may be (label, formula):
+        the label (a property id) prefixes the obligation name."""
+        r = spec.inv(self, env)
+        if not isinstance(r, (list, tuple)) or (
+                len(r) == 2 and isinstance(r[0], str)):
+            r = [r]
+        for i, x in enumerate(r):
+            nm = name
+            if isinstance(x, tuple) and len(x) == 2 and isinstance(x[0], str):
+                nm = f'{x[0]}/{name}'
+                x = x[1]
+            p.oblige(nm, x if not z3.is_expr(x) else mk_bool(x),
+                     info=f'conjunct {i}', kind='inv')
+
     def _spec_inv(self, spec, env):
         r = spec.inv(self, env)
+        if isinstance(r, tuple) and len(r) == 2 and isinstance(r[0], str):
+            r = [r]
         if isinstance(r, (list, tuple)):
             out = True
             for x in r:
+                if isinstance(x, tuple) and len(x) == 2 and \
+                        isinstance(x[0], str):
+                    x = x[1]
                 out = sym.s_and(out, x if not z3.is_expr(x) else mk_bool(x))
             return out
         if z3.is_expr(r):
